@@ -31,6 +31,7 @@ use bitvec::view::BitView;
 use serde::{Deserialize, Serialize};
 
 use core::borrow::Borrow;
+use core::cmp::Ordering;
 use core::hash::{Hash, Hasher};
 use core::marker::PhantomData;
 use core::ops::{Bound, Deref, RangeBounds};
@@ -40,7 +41,7 @@ use core::{fmt, ptr, str};
 /// A arbitrary length sequence of bit-packed symbols
 ///
 /// Stored on the heap
-#[derive(Debug, PartialEq, Eq, PartialOrd, Ord)]
+#[derive(Debug, PartialEq, Eq)]
 #[cfg_attr(feature = "serde", derive(Serialize, Deserialize))]
 #[repr(transparent)]
 pub struct Seq<A: Codec> {
@@ -52,6 +53,22 @@ impl<A: Codec> From<Seq<A>> for usize {
     fn from(slice: Seq<A>) -> usize {
         debug_assert!(slice.bv.len() <= usize::BITS as usize);
         slice.bv.load_le::<usize>() //.wrapping_shr(shift)
+    }
+}
+
+/// Sequences are ordered colexicographically, like `Kmer`s: the last symbol is the most
+/// significant, so equal length sequences order like their little-endian integer values.
+impl<A: Codec> Ord for Seq<A> {
+    fn cmp(&self, other: &Self) -> Ordering {
+        let lhs = self.bv.iter().by_vals().rev();
+        let rhs = other.bv.iter().by_vals().rev();
+        lhs.cmp(rhs)
+    }
+}
+
+impl<A: Codec> PartialOrd for Seq<A> {
+    fn partial_cmp(&self, other: &Self) -> Option<Ordering> {
+        Some(self.cmp(other))
     }
 }
 
